@@ -899,15 +899,10 @@ impl Pool for PoolF {
             "add" | "sub" | "mul" | "div" => match (&self.regs[a - 1], &self.regs[b - 1]) {
                 (FReg::B2(x), FReg::B2(y)) => FReg::B2(FV::binary(op, f, x, y)),
                 (FReg::B10(x), FReg::B10(y)) => FReg::B10(FV::binary(op, f, x, y)),
-                // operands of different bases: the right one is converted first (a producer of its own)
-                (FReg::B2(x), FReg::B10(y)) => {
-                    let y2 = fv_map!(y.clone(), p => p.with_base::<2>().value());
-                    FReg::B2(FV::binary(op, f, x, &y2))
-                }
-                (FReg::B10(x), FReg::B2(y)) => {
-                    let y2 = fv_map!(y.clone(), p => p.with_base::<10>().value());
-                    FReg::B10(FV::binary(op, f, x, &y2))
-                }
+                // operands of different bases cannot be combined (a base change is a producer of its own:
+                // "withbase"); the operation then takes its left operand twice
+                (FReg::B2(x), FReg::B10(_)) => FReg::B2(FV::binary(op, f, x, x)),
+                (FReg::B10(x), FReg::B2(_)) => FReg::B10(FV::binary(op, f, x, x)),
             },
             "neg" => freg_map!(self.regs[a - 1].clone(), v => fv_map!(v, p => if f == "r" { -&p } else { -p })),
             "abs" => freg_map!(self.regs[a - 1].clone(), v => fv_map!(v, p => p.abs())),
